@@ -7,3 +7,157 @@ try:
     REPLAYERS.update(getattr(_ring, "REPLAYERS", {}))
 except ImportError:
     _ring = None
+
+import itertools
+import numpy, z3
+from pyvc import sym, barr, modeb
+from pyvc.sym import cur, _t, ite
+
+GM = "pybrops/popgen/gmat/"
+SHAPES_U = [(1, 1), (2, 1), (1, 2), (3, 2), (2, 3)]          # (ntaxa, nvrnt), unphased diploid
+SHAPES_P = [(1, 1), (2, 1), (2, 2), (3, 1)]                  # phased: (2, ntaxa, nvrnt)
+
+
+def _mk_unphased(n, p):
+    from pybrops.popgen.gmat.DenseGenotypeMatrix import DenseGenotypeMatrix
+    mat = barr.fresh("g", (n, p), "int8", 0, 2)
+    return DenseGenotypeMatrix(mat=mat, ploidy=2), mat, [[mat[i, j] for j in range(p)] for i in range(n)]
+
+
+def _mk_phased(n, p):
+    from pybrops.popgen.gmat.DensePhasedGenotypeMatrix import DensePhasedGenotypeMatrix
+    mat = barr.fresh("h", (2, n, p), "int8", 0, 1)
+    return DensePhasedGenotypeMatrix(mat=mat), mat, [[mat[0, i, j] + mat[1, i, j] for j in range(p)] for i in range(n)]
+
+
+def _stat_obligations(e, tag, gm, dos, n, p, ploidy=2):
+    """every statistic against its textbook definition on the raw allele calls (dos[i][j] = dosage)"""
+    R = lambda x: z3.ToReal(_t(x)) if _t(x).sort() == z3.IntSort() else _t(x)
+    cnt = [sum((dos[i][j] for i in range(n)), 0) for j in range(p)]
+    tot = ploidy * n
+    freq = [R(cnt[j]) / tot for j in range(p)]
+    allfix = [z3.Or(_t(cnt[j]) == 0, _t(cnt[j]) == tot) for j in range(p)]
+    e.prove(tag + ":tacount", modeb.eq(gm.tacount(), [[dos[i][j] for j in range(p)] for i in range(n)]))
+    e.prove(tag + ":tafreq", z3.And(*[R(gm.tafreq()[i, j]) == R(dos[i][j]) / ploidy for i in range(n) for j in range(p)]))
+    e.prove(tag + ":acount", modeb.eq(gm.acount(), cnt))
+    af = gm.afreq()
+    e.prove(tag + ":afreq", z3.And(*[R(af[j]) == freq[j] for j in range(p)]))
+    e.prove(tag + ":afreq-in-[0,1]", z3.And(*[z3.And(R(af[j]) >= 0, R(af[j]) <= 1) for j in range(p)]))
+    e.prove(tag + ":afreq-0-or-1-iff-all-copies-equal",
+            z3.And(*[z3.Or(R(af[j]) == 0, R(af[j]) == 1) == allfix[j] for j in range(p)]))
+    fx, pl = gm.afixed(), gm.apoly()
+    e.prove(tag + ":afixed", z3.And(*[_t(fx[j]) == allfix[j] for j in range(p)]))
+    e.prove(tag + ":apoly-is-complement-of-afixed", z3.And(*[_t(pl[j]) == z3.Not(_t(fx[j])) for j in range(p)]))
+    mf = gm.maf()
+    e.prove(tag + ":maf", z3.And(*[R(mf[j]) == z3.If(freq[j] <= 1 - freq[j], freq[j], 1 - freq[j]) for j in range(p)]))
+    e.prove(tag + ":meh", R(gm.meh()) == sum((ploidy * freq[j] * (1 - freq[j]) for j in range(p)), z3.RealVal(0)) / p)
+    gc = gm.gtcount()
+    e.prove(tag + ":gtcount-has-ploidy+1-classes", gc.shape == (ploidy + 1, p))
+    if gc.shape == (ploidy + 1, p):
+        exp = [[sum((ite(dos[i][j] == c, 1, 0) for i in range(n)), 0) for j in range(p)] for c in range(ploidy + 1)]
+        e.prove(tag + ":gtcount", modeb.eq(gc, exp))
+        e.prove(tag + ":gtcount-sums-to-ntaxa", z3.And(*[_t(sum((gc[c, j] for c in range(ploidy + 1)), 0)) == n for j in range(p)]))
+        gf = gm.gtfreq()
+        e.prove(tag + ":gtfreq", z3.And(*[R(gf[c, j]) == R(exp[c][j]) / n for c in range(ploidy + 1) for j in range(p)]))
+    e.prove(tag + ":mat_asformat{0,1,2}", modeb.eq(gm.mat_asformat("{0,1,2}"), [[dos[i][j] for j in range(p)] for i in range(n)]))
+    e.prove(tag + ":mat_asformat{-1,0,1}", modeb.eq(gm.mat_asformat("{-1,0,1}"), [[dos[i][j] - 1 for j in range(p)] for i in range(n)]))
+    e.prove(tag + ":canary:afreq-off", z3.And(*[R(af[j]) == freq[j] + 1 for j in range(p)]), expect="fail", timeout_ms=2000)
+
+
+@unit(P, "B[DenseGenotypeMatrix statistics == definitions]", "B", bounded=True, targets=[],
+      note="bounded(shape): ntaxa<=3, nvrnt<=3, diploid; all allele patterns symbolic")
+def u_b_unphased(ctx):
+    def body(e, shape, tag):
+        n, p = shape
+        gm, mat, dos = _mk_unphased(n, p)
+        _stat_obligations(e, tag, gm, dos, n, p)
+        return "ok"
+    modeb.run_shapes(ctx, "unphased", SHAPES_U if ctx.tier == "quick" else SHAPES_U + [(4, 2), (3, 3)], body)
+
+
+@unit(P, "B[DensePhasedGenotypeMatrix statistics == definitions == unphased projection]", "B", bounded=True, targets=[],
+      note="bounded(shape): ntaxa<=3, nvrnt<=2, two phases; all allele patterns symbolic")
+def u_b_phased(ctx):
+    def body(e, shape, tag):
+        from pybrops.popgen.gmat.DenseGenotypeMatrix import DenseGenotypeMatrix
+        n, p = shape
+        gm, mat, dos = _mk_phased(n, p)
+        _stat_obligations(e, tag, gm, dos, n, p)
+        proj = DenseGenotypeMatrix(mat=mat.sum(0).astype("int8"), ploidy=2)
+        for meth in ("tacount", "tafreq", "acount", "afreq", "afixed", "apoly", "maf", "gtcount", "gtfreq"):
+            e.prove(tag + ":phased==unphased-projection:" + meth, modeb.eq(getattr(gm, meth)(), getattr(proj, meth)()))
+        e.prove(tag + ":phased==unphased-projection:meh", modeb.close_scalar(gm.meh(), proj.meh()))
+        return "ok"
+    modeb.run_shapes(ctx, "phased", SHAPES_P if ctx.tier == "quick" else SHAPES_P + [(3, 2)], body)
+
+
+# ---------------------------------------------------------------------------
+# mode F: float exactness of the frequency routines on the REAL methods, exhaustive over the copy number
+def _f_case(cls_name, n, phased):
+    """columns: 0 copies, 1 copy, all-but-one, all copies of allele 1; returns None or a message"""
+    import importlib
+    if phased:
+        from pybrops.popgen.gmat.DensePhasedGenotypeMatrix import DensePhasedGenotypeMatrix as C
+        mat = numpy.zeros((2, n, 4), dtype="int8")
+        mat[0, 0, 1] = 1
+        mat[:, :, 2] = 1
+        mat[1, n - 1, 2] = 0
+        mat[:, :, 3] = 1
+        gm = C(mat=mat)
+    else:
+        from pybrops.popgen.gmat.DenseGenotypeMatrix import DenseGenotypeMatrix as C
+        mat = numpy.zeros((n, 4), dtype="int8")
+        mat[0, 1] = 1
+        mat[:, 2] = 2
+        mat[n - 1, 2] = 1
+        mat[:, 3] = 2
+        gm = C(mat=mat, ploidy=2)
+    af = gm.afreq()
+    if not (af[0] == 0.0 and af[3] == 1.0):
+        return "afreq of loci fixed for allele 0 / 1 is %r / %r (ntaxa=%d)" % (af[0], af[3], n)
+    if not (0.0 < af[1] < 1.0 and 0.0 < af[2] < 1.0) and n > 0:
+        if not (n == 1 and not phased and False):
+            return "afreq of polymorphic loci is %r / %r (ntaxa=%d)" % (af[1], af[2], n)
+    fx, pl = gm.afixed(), gm.apoly()
+    if list(fx) != [True, False, False, True] or list(pl) != [False, True, True, False]:
+        return "afixed=%s apoly=%s for columns [fixed0, one copy, all-but-one, fixed1] (ntaxa=%d)" % (list(fx), list(pl), n)
+    tf = gm.tafreq()
+    if not (tf.max() == 1.0 and tf.min() == 0.0):
+        return "tafreq extremes %r %r" % (tf.min(), tf.max())
+    return None
+
+
+def _f_run(ctx, phased):
+    nmax = 3000 if ctx.tier == "quick" else 60000
+    ctx.rule = ("exhaustive over ntaxa = 1..%d (copy number 2*ntaxa): loci with 0, 1, all-but-one and all copies of the allele; "
+                "afreq exactly 0/1 iff fixed, strictly inside otherwise, afixed/apoly flags, tafreq extremes" % nmax)
+    name = "DensePhasedGenotypeMatrix" if phased else "DenseGenotypeMatrix"
+    for n in range(1, nmax + 1):
+        msg = _f_case(name, n, phased)
+        ctx.case(n, nontrivial=True, sample=dict(ntaxa=n) if n in (1, 49, 103) else None)
+        if msg:
+            ctx.fail_input("F:%s:frequency-exactness" % name, dict(ntaxa=n, phased=phased), cls="afreq-float-exactness", message=msg)
+            if len(ctx.failures) >= 3:
+                break
+    ctx.exhaustive = True
+
+
+@unit(P, "F[DenseGenotypeMatrix frequency exactness, all copy numbers]", "F", bounded=True,
+      note="bounded: exhaustive native enumeration of ntaxa <= 3000 (quick) / 60000 (thorough), diploid")
+def u_f_unphased(ctx):
+    _f_run(ctx, False)
+
+
+@unit(P, "F[DensePhasedGenotypeMatrix frequency exactness, all copy numbers]", "F", bounded=True,
+      note="bounded: exhaustive native enumeration of ntaxa <= 3000 (quick) / 60000 (thorough), diploid")
+def u_f_phased(ctx):
+    _f_run(ctx, True)
+
+
+def _f_replay(case):
+    msg = _f_case("", case["ntaxa"], case["phased"])
+    return (msg is not None), (msg or "ok")
+
+
+REPLAYERS["F[DenseGenotypeMatrix frequency exactness, all copy numbers]"] = _f_replay
+REPLAYERS["F[DensePhasedGenotypeMatrix frequency exactness, all copy numbers]"] = _f_replay
